@@ -150,6 +150,10 @@ class AsyncTask(futures.FutureBase):
     def _computed(self):
         try:
             if self._generator is not None:
+                # The task was completed while suspended at a yield (e.g. by a context
+                # whose pause() raised). Closing the generator leaves its with-blocks, and
+                # each __exit__ pauses its context, so they must be active again first.
+                self._resume_contexts()
                 self._generator.close()
                 self._generator = None
             if _debug_options.COLLECT_PERF_STATS is True:
